@@ -42,6 +42,7 @@ def main(argv=None):
     ob_reports, samples, functions, lines = [], [], set(), set()
     violations, known_hits, inconclusive, harness_errors = [], {}, [], []
     validated, validation_failures = 0, []
+    soft = []
     n_assert_checked = 0
     for task in spec["tasks"](tier):
         name, params, prefixes = task["ob"], task.get("params", {}), task["want"]
@@ -82,6 +83,8 @@ def main(argv=None):
             harness_errors.append("%s: no feasible path (vacuous obligation)" % name)
         for r in out.inconclusive:
             inconclusive.append("%s: %s" % (name, r["why"]))
+        if out.soft:
+            soft.append("%s: %s (%d paths)" % (name, out.soft[0], len(out.soft)))
         for r in out.errors:
             harness_errors.append("%s: %s\n%s" % (name, r["why"], r.get("tb", "")))
         if out.infos:
@@ -140,6 +143,8 @@ def main(argv=None):
         print("VIOLATION property=%s replay=%s" % (pid, v["replay"]))
         print("  assertion %s in %s: %s" % (v["assertion"], v["obligation"], v.get("summary", "")))
         status = 1
+    if soft and not violations:
+        inconclusive.extend(soft)
     if validation_failures or harness_errors or inconclusive:
         for m in (validation_failures + harness_errors)[:10]:
             print("HARNESS-ERROR %s" % m)
